@@ -113,6 +113,60 @@ def check_literal_mutation(eng, s, fr):
             if nme is not None and isinstance(fr.vars.get(nme), (ConstSeq, ConstDict)):
                 raise Unsupported(f'loop at line {s.lineno} mutates the literal collection {nme!r} (python-level constant): '
                                   f'give the enclosing function a contract / annotate the local so that it lives in the heap')
+def _loop_mods(eng, con, spec, fr, ghost):
+    """modifies items of loop<K>_modifies evaluated at loop entry (for and while loops); None = anything may change"""
+    if 'modifies' not in spec:
+        return None
+    b = _bind(eng, fr, ghost)
+    names = [a.arg for a in spec['modifies'].args.args]
+    mfr = Frame(None, con.module, {x: b[x] for x in names}, None, None)
+    saved = eng.mode
+    eng.mode = SPEC
+    try:
+        try:
+            eng.exec_block(spec['modifies'].body, mfr)
+            return []
+        except ReturnEx as r:
+            return list(eng.iter_const(r.value))
+    finally:
+        eng.mode = saved
+
+
+def _log_mark(eng):
+    return {k: len(v) for k, v in eng.heap.log.items()}
+
+
+def _body_frame(eng, mods, head_heap, mark, tag, line):
+    """the writes of one arbitrary iteration stay inside loop<K>_modifies (or hit objects allocated by the iteration):
+    obligation loop-frame, without which the havoc of exactly that set at the loop head would not be justified"""
+    if mods is None:
+        return
+    allowed = eng.allowed_fn(mods)
+    alloc0 = head_heap.get('alloc', arr(Ref, B))
+    for name in sorted(eng.heap.log):
+        events = eng.heap.log[name][mark.get(name, 0):]
+        if name == 'alloc' or not events:
+            continue
+        a = allowed(name)
+        if a == 'all':
+            continue
+        new, old = eng.heap.get(name), head_heap.get(name, eng.heap.sorts[name])
+        claims, general, seen = [], False, set()
+        for evn in events:
+            ws = [evn[1]] if evn[0] == 'store' else (evn[1].refs if evn[0] == 'havoc' and evn[1] != 'all' and not evn[1].preds else None)
+            if ws is None:
+                general = True
+                break
+            for w in ws:
+                if w.get_id() not in seen:
+                    seen.add(w.get_id())
+                    claims.append(z3.Or(z3.Not(alloc0[w]), a(w) if a is not None else z3.BoolVal(False), new[w] == old[w]))
+        if general:
+            r = z3.Const('r!fr', Ref)
+            cond = alloc0[r] if a is None else z3.And(alloc0[r], z3.Not(a(r)))
+            claims = [z3.ForAll([r], z3.Implies(cond, new[r] == old[r]))]
+        if claims:
+            eng.run.oblige(f'loop-frame:{name}/{tag}', 'frame', z3.And(claims) if len(claims) > 1 else claims[0], line)
 
 
 def symbolic_for(eng, s, fr, it):
@@ -127,11 +181,11 @@ def symbolic_for(eng, s, fr, it):
     entry_heap = eng.heap.snapshot()
     entry_vars = dict(fr.vars)
     loop_old = OldNS(entry_vars, entry_heap)
-    is_list = isinstance(it, ListV)
+    is_list = isinstance(it, (ListV, ZipV))
     if isinstance(it, DictV):
         it = ValuesView(it, 'keys')
     if is_list:
-        n = eng.list_len(it)
+        n = eng.seq_len_term(it)
         ghost0 = {'k': 0, 'loop_old': loop_old}
     else:
         ety = eng.elem_type(it) if not (isinstance(it, ValuesView) and it.what == 'items') else it.d.kty
@@ -141,23 +195,9 @@ def symbolic_for(eng, s, fr, it):
     # 1. initiation
     eng.run.oblige(f'loop-init:{tag}', 'inv', _clause(eng, con, spec['inv'], fr, ghost0), s.lineno)
     # 2. arbitrary iteration: havoc what the body may change
-    if 'modifies' in spec:
-        b = _bind(eng, fr, ghost0)
-        names = [a.arg for a in spec['modifies'].args.args]
-        mfr = Frame(None, con.module, {x: b[x] for x in names}, None, None)
-        saved = eng.mode
-        eng.mode = SPEC
-        try:
-            try:
-                eng.exec_block(spec['modifies'].body, mfr)
-                mods = []
-            except ReturnEx as r:
-                mods = list(eng.iter_const(r.value))
-        finally:
-            eng.mode = saved
-        eng.heap.havoc(eng.allowed_fn(mods))
-    else:
-        eng.heap.havoc(eng.allowed_fn(None))
+    mods = _loop_mods(eng, con, spec, fr, ghost0)
+    eng.heap.havoc(eng.allowed_fn(mods))
+    head_heap, mark = eng.heap.snapshot(), _log_mark(eng)
     havoc_locals(eng, fr, assigned_names(s.body) | assigned_names([s.target]))
     mark_loop_effects(eng, con, k_ord)
     fx_start = len(eng.effects)
@@ -182,7 +222,7 @@ def symbolic_for(eng, s, fr, it):
         more = z3.Exists([x], z3.And(coll_chi[x], z3.Not(seen[x])))
     if eng.run.decide(more):
         if is_list:
-            elem = eng.list_get(it, k)
+            elem = eng.seq_get(it, k)
             ghost_next = {'k': SV(k + 1, INT), 'loop_old': loop_old}
         else:
             e = eng.run.fresh('elem', so)
@@ -206,6 +246,7 @@ def symbolic_for(eng, s, fr, it):
         except ContinueEx:
             pass
         eng.run.oblige(f'loop-preserve:{tag}', 'inv', _clause(eng, con, spec['inv'], fr, ghost_next), s.lineno)
+        _body_frame(eng, mods, head_heap, mark, tag, s.lineno)
         raise PathEnd()
     # 3. exit: invariant with everything processed
     if not is_list:
@@ -257,7 +298,9 @@ def symbolic_while(eng, s, fr):
     loop_old = OldNS(dict(fr.vars), eng.heap.snapshot())
     ghost = {'loop_old': loop_old}
     eng.run.oblige(f'loop-init:{tag}', 'inv', _clause(eng, con, spec['inv'], fr, ghost), s.lineno)
-    eng.heap.havoc(eng.allowed_fn(None))
+    mods = _loop_mods(eng, con, spec, fr, ghost)
+    eng.heap.havoc(eng.allowed_fn(mods))
+    head_heap, mark = eng.heap.snapshot(), _log_mark(eng)
     havoc_locals(eng, fr, assigned_names(s.body))
     mark_loop_effects(eng, con, k_ord)
     fx_start = len(eng.effects)
@@ -282,5 +325,6 @@ def symbolic_while(eng, s, fr):
         if measure0 is not None:
             m1 = eng.eval_term(con, spec['decreases'], fr, ghost)
             eng.run.oblige(f'term:{tag}', 'term', z3.And(measure0 >= 0, m1 < measure0), s.lineno)
+        _body_frame(eng, mods, head_heap, mark, tag, s.lineno)
         raise PathEnd()
     eng.exec_block(s.orelse, fr)
